@@ -917,6 +917,39 @@ theorem trans_C07_C17_reprovision_v2 (r : T_v2_sharedResource) :
       simp [List.getElem?_drop, List.getElem?_replicate]
       split <;> rfl
 
+/-! ### the translated functions as steps of the Batcher machine
+
+The phase constants of the source (`iota`: uninitialised 0, started 1, paused 2, stopped 3) against the machine's
+`Phase`; the one-token pause channel against `pauseReq`. -/
+
+def phaseNum : Phase → Nat
+  | .uninit => 0 | .started => 1 | .paused => 2 | .stopped => 3
+
+/-- the translated `Pause()` IS the machine's `pauseCall` label -/
+theorem trans_C13_Pause_is_pauseCall (c : BCfg) (s s' : St) (h : step c s .pauseCall = some s') :
+    v2_Pause { phase := phaseNum s.phase, pause := if s.pauseReq then 1 else 0 } =
+      { phase := phaseNum s'.phase, pause := if s'.pauseReq then 1 else 0 } := by
+  simp only [step] at h
+  cases hp : s.phase <;> cases hr : s.pauseReq <;> simp [hp] at h <;> subst h <;>
+    simp [v2_Pause, phaseNum, hp, hr]
+
+/-- the translated `resume()` (end of the pause arm) IS what the machine's `wake` label does to the phase -/
+theorem trans_C13_C16_resume_is_wake (c : BCfg) (s s' : St) (h : step c s .wake = some s') :
+    v2_resume ⟨phaseNum s.phase⟩ = ⟨phaseNum s'.phase⟩ := by
+  simp only [step] at h
+  split at h
+  · split at h
+    · cases h
+      cases hp : s.phase <;> simp [v2_resume, phaseNum, hp]
+    · cases h
+  · cases h
+
+/-- the machine's `startCall` is enabled exactly when the translated head of `Start` goes on (returns no error) -/
+theorem trans_C16_startHead_is_startCall (c : BCfg) (s : St) (r : T_v2_batcher_cfg) :
+    (step c s .startCall).isSome ↔ (v2_startHead r (phaseNum s.phase)).2 = "" := by
+  rw [trans_C16_startHead_v2]
+  cases hp : s.phase <;> simp [step, phaseNum, hp]
+
 /-! ### non-vacuity: the translated functions on concrete values (also a readable trace of what they compute) -/
 
 example : v2_incTarget ⟨7⟩ 5 = ⟨12⟩ ∧ v2_incTarget ⟨7⟩ (-5) = ⟨2⟩ ∧ v2_incTarget ⟨7⟩ (-9) = ⟨0⟩ ∧ v2_incTarget ⟨7⟩ 0 = ⟨7⟩ := by decide
